@@ -172,6 +172,7 @@ class CSSRuleRules(CSSRule):
 
     def _setCssRules(self, cssRules):
         "Set new cssRules and update contained rules refs."
+        self._checkReadonly()
         cssRules.append = self.insertRule
         cssRules.extend = self.insertRule
         cssRules.__delitem__ = self.deleteRule
